@@ -259,7 +259,13 @@ FUNCS = {
     # function: base kwargs, per-parameter domains
     "draw_gmm": ({"n": 5, "loc": [[0.0, 0.0], [1.0, 1.0]], "scale": [[[1.0, 0.0], [0.0, 1.0]]] * 2, "pvals": [0.5, 0.5], "random_state": 0},
                  {"n": {"in": [1, 3], "out": [0, -1, 2.5, "3", None]}, "random_state": RS,
-                  "loc": {"in": [], "out": [3, "ab", None]}, "pvals": {"in": [], "out": [3, "ab", None, [0.5, 0.6], [1.0, 0.0]]}}),
+                  "loc": {"in": [], "out": [3, "ab", None]}, "pvals": {"in": [], "out": [3, "ab", None, [0.5, 0.6], [1.0, 0.0]]},
+                  # covariances: positive SEMI-definite (singular, widely different units) in; anything with a clearly negative eigenvalue out,
+                  # also when another component of the mixture lives in much larger units
+                  "scale": {"in": [[[[1.0, 1.0], [1.0, 1.0]], [[2.0, 0.0], [0.0, 0.5]]], [[[1e7, 0.0], [0.0, 1e7]], [[1e-2, 0.0], [0.0, 1e-2]]]],
+                            "out": [[[[1.0, 0.0], [0.0, 1.0]], [[1.0, 2.0], [2.0, 1.0]]], [[[1e7, 0.0], [0.0, 1e7]], [[1e-2, 2e-2], [2e-2, 1e-2]]],
+                                    [[[1e-2, 2e-2], [2e-2, 1e-2]], [[1e7, 0.0], [0.0, 1e7]]], [[[-1.0, 0.0], [0.0, -1.0]], [[1e12, 0.0], [0.0, 1e12]]],
+                                    [[[0.0, 0.0], [0.0, 0.0]], [[1.0, 0.0], [0.0, 1.0]]], 3, None]}}),
     "multivariate_student_t": ({"n": 4, "loc": [0.0, 1.0], "scale": [[1.0, 0.0], [0.0, 1.0]], "df": 3, "random_state": 0},
                                {"n": {"in": [1], "out": [0, -1, 2.5, "3", None]}, "df": {"in": [0.5, 1, 10], "out": [0, -1, "3", None]}, "random_state": RS,
                                 "scale": {"in": [], "out": [[[1.0, 0.0, 0.0], [0.0, 1.0, 0.0]], 3, None]}}),
